@@ -78,7 +78,7 @@ PROPS = {
         'engines': [{'name': 'rd', 'timeout_quick': 900, 'timeout_thorough': 7200}],
         'trusted_base': ['decompression oracle: mtbl_decompress'],
         'assumptions': ['T03c is stated over table_ok (see C01/C11 for which files satisfy it); the reader model is tied to reader.c/block.c step by step by engine rd against the sorted-list cursor',
-                        'buffer stability and non-interference between iterators of one reader are validated only (returned pointers re-read before the next call; several iterators interleaved)'],
+                        'buffer stability and non-interference between iterators: theorems T03m_* on the memory-level model model/IterMem.v (heap of buffers, ownership, the allocation / rewrite / free pattern of reader.c and block.c, arbitrary realloc policy); the C code is tied to that pattern by the source ties of its iterator functions and by engine rd (returned pointers re-read before the next call; several iterators interleaved)'],
         'explanation': 'T03a: block_iter_seek (gallop from the current restart index + binary search + continue-from-current shortcut + unbounded linear scan) reaches the first entry >= target from EVERY reachable iterator state of EVERY well-formed block; T03b: seek_to_first/next. Histories on the four iterator kinds, exhaustive (position,target) pairs on small tables.',
     },
     'C11': {
